@@ -51,15 +51,15 @@ func Run(instances []*Instance, s *report.Sink) {
 func runOne(in *Instance, s *report.Sink) {
 	x := Extract(in)
 	rc := &ruleCtx{x: x, s: s}
-	if !rc.wellTyped() {
-		return
-	}
 	if in.Origin == "X" {
 		if len(in.T2) > 0 {
 			s.Bad("T2", rc.key("hoisting discipline"), in.Key, in.T2[0])
 		} else {
 			s.OK("T2", rc.key("hoisting discipline"), "", "user expressions appear only as hoisted variables; raw text only in the prologue definitions")
 		}
+	}
+	if !rc.wellTyped() {
+		return
 	}
 	for _, p := range x.Problems {
 		s.Unk("V1", rc.key("shape: "+p), in.Key, "generated code shape not recognised: "+p)
